@@ -1,6 +1,7 @@
 package checks
 
 import (
+	"github.com/opsidian/parsley/data"
 	"math/rand"
 	"strconv"
 	"strings"
@@ -60,8 +61,25 @@ func newArith() *arithParsers { return newArithOrder(false) }
 
 // newArithOrder: baseFirst lists the non-recursive alternative first (expr -> term | expr (+|-) term), the order used by
 // the library's own ExampleMemoize; the language and the values are the same
+// arithCallCap: when > 0, a parse of the arithmetic grammar whose context has registered more parser calls than this
+// is abandoned with a panic(arithOverCap) raised at the next token (a transparent probe: it forwards everything
+// and registers no call). A differential check that knows the call count of the reference run uses it to stop a run
+// that has already shown to need far more work, instead of letting it run for minutes and gigabytes.
+var arithCallCap int
+
+type arithOverCap struct{ calls int }
+
+func arithCapped(p parsley.Parser) parsley.Parser {
+	return parser.Func(func(ctx *parsley.Context, lrc data.IntMap, pos parsley.Pos) (parsley.Node, data.IntSet, parsley.Error) {
+		if arithCallCap > 0 && ctx.CallCount() > arithCallCap {
+			panic(arithOverCap{ctx.CallCount()})
+		}
+		return p.Parse(ctx, lrc, pos)
+	})
+}
+
 func newArithOrder(baseFirst bool) *arithParsers {
-	tok := func(p parsley.Parser) parsley.Parser { return text.LeftTrim(p, text.WsSpacesNl) }
+	tok := func(p parsley.Parser) parsley.Parser { return arithCapped(text.LeftTrim(p, text.WsSpacesNl)) }
 	alts := func(rec, base parsley.Parser) parsley.Parser {
 		if baseFirst {
 			return combinator.Any(base, rec)
